@@ -101,7 +101,10 @@ class C04(Prop):
         if item is not None and not q:
             if item[0] == "raise" and res != X.DFLT:
                 return "item access raises %s but get/first returned %r instead of the default" % (item[1], res)
-            if item[0] == "ok" and isinstance(res, str) and res == X.DFLT:
+            # n0list['' ] answers None without resolving anything (theorem C04_list_item_access_default_only_empty:
+            # the only string with that behaviour), so there "item access returns" does not mean "resolves"
+            empty_on_list = i["xpath"] == "" and isinstance(i["tree"], list)
+            if item[0] == "ok" and isinstance(res, str) and res == X.DFLT and not empty_on_list:
                 return "item access resolves to %r but get/first returned the default" % (item[1],)
         return None
 
